@@ -76,7 +76,10 @@ func reasmSpec(id string, which reasm.Which, snapshot bool, rule string, assumpt
 		// random histories
 		c.ForEach(nRandom, func(w, i int) {
 			r := c.Rand(1, uint64(i))
-			h := reasm.Random(r, reasm.GenOpts{MaxOps: 60, Reentrant: which.C01})
+			h := reasm.Random(r, reasm.GenOpts{MaxOps: 60, Reentrant: which.C01, AfterClose: true})
+			if len(h.Ops) > 0 && h.Ops[len(h.Ops)-1].Kind != reasm.OpClose || countKind(h, reasm.OpClose) > 1 {
+				c.Add("histories_continuing_after_close", 1)
+			}
 			if len(h.Reenter) > 0 {
 				c.Add("histories_with_reentrant_callbacks", 1)
 			}
@@ -136,7 +139,7 @@ func reasmSpec(id string, which reasm.Which, snapshot bool, rule string, assumpt
 	}
 }
 
-const reasmRule = "cases = seeded random single-goroutine call histories (1-60 ops of PushMessage/Push(raw)/Push(bad)/PushMessage(nil)/Maintain over 2-8 live sequence numbers in one 2^24 window anchored at 1, 0, 2^32-6 (straddling the roll-over) or random; completing, non-completing and EOE record types; duplicates; maxInFlight in {0,1,2,3,5,8,64}; timeout 1h) each ending in Close, plus EVERY history of length <= L over 3 sequences x {non-completing, completing, EOE} + Maintain for maxInFlight in {0,1,2} and two anchors (L=4 quick, 7 thorough). distinct_nontrivial = distinct histories (by full text) in which at least one of {overflow eviction, duplicate sequence, late arrival, roll-over straddle, orphan EOE, loss gap, head-of-line blocking} occurred."
+const reasmRule = "cases = seeded random single-goroutine call histories (1-60 ops of PushMessage/Push(raw)/Push(bad)/PushMessage(nil)/Maintain over 2-8 live sequence numbers in one 2^24 window anchored at 1, 0, 2^32-6 (straddling the roll-over) or random; completing, non-completing and EOE record types; duplicates; maxInFlight in {0,1,2,3,5,8,64}; timeout 1h) each ending in Close (a fifth continue with pushes / Maintain / Close after it), plus EVERY history of length <= L over 3 sequences x {non-completing, completing, EOE} + Maintain for maxInFlight in {0,1,2} and two anchors (L=4 quick, 7 thorough). distinct_nontrivial = distinct histories (by full text) in which at least one of {overflow eviction, duplicate sequence, late arrival, roll-over straddle, orphan EOE, loss gap, head-of-line blocking} occurred."
 
 var reasmAssumptions = []string{
 	"histories are executed by the real Reassembler from /repo's working tree (-tags verif); callbacks are recorded at the Stream boundary and tagged with the call that made them",
@@ -149,4 +152,14 @@ func init() {
 	register(reasmSpec("C02", reasm.Which{C02: true}, false, reasmRule, reasmAssumptions))
 	register(reasmSpec("C03", reasm.Which{C03: true}, false, reasmRule+" The loss oracle is evaluated after every call, not only at Close.", reasmAssumptions))
 	register(reasmSpec("C10", reasm.Which{C10: true}, true, reasmRule+" After every call the VerifSnapshot hook (taken under the list's own mutex) is cross-checked against the buffer reconstructed at the boundary.", reasmAssumptions))
+}
+
+func countKind(h *reasm.History, kind string) int {
+	n := 0
+	for _, o := range h.Ops {
+		if o.Kind == kind {
+			n++
+		}
+	}
+	return n
 }
